@@ -110,6 +110,20 @@ def replay(case):
                 out.append(('arr:descent', 'residual increases with the number of sweeps: %r' % (res,)))
             if np.max(np.abs(contract(guess.cores) - gval)) > 1e-9 * max(1.0, float(np.max(np.abs(gval)))):
                 out.append(('arr:guess_changed', 'the initial guess was modified'))
+            # one guess per row of y, passed as a list (as tests/test_regression.py does): the same results, and the
+            # guesses in the list are arguments like any other
+            glist = [guess.copy() for _ in range(y.shape[0])]
+            sol_l = reg.arr(x, y, basis(), glist, repeats=3, rcond=1e-10, progress=False)
+            if not isinstance(sol_l, list) or len(sol_l) != y.shape[0]:
+                out.append(('arr:list:length', 'one coefficient train per row of y expected'))
+            else:
+                for k in range(y.shape[0]):
+                    a, b = contract(sol_l[k].cores), contract(sol[k].cores)
+                    if a.shape != b.shape or np.max(np.abs(a - b)) > 1e-7 * max(1.0, float(np.max(np.abs(b)))):
+                        out.append(('arr:list:value', 'a list of guesses gives a different result than the single guess (row %d)' % k))
+                        break
+                if any(np.max(np.abs(contract(g.cores) - gval)) > 1e-9 * max(1.0, float(np.max(np.abs(gval)))) for g in glist):
+                    out.append(('arr:list:guess_changed', 'initial guesses passed as a list were modified'))
     except Exception as e:
         out.append(('%s:exception:%s' % (task, type(e).__name__), '%r (cfg d=%d m=%d)' % (e, cfg['d'], m)))
     return out
